@@ -62,7 +62,8 @@ def case_strategy(draw):
             pools["PB"] = pools["PB"] + [samples[0]]
     pool_ploidy = {p: draw(st.sampled_from([2, 4])) for p in pools}
     return {"kind": "independence", "spec": spec, "ploidy": ploidy, "perm": perm, "alone": alone, "pool_mode": mode, "pools": pools,
-            "pool_ploidy": pool_ploidy, "seed": draw(st.integers(1, 10000)), "threshold": draw(st.sampled_from([0.2, 0.2, 0.5]))}
+            "pool_ploidy": pool_ploidy, "seed": draw(st.integers(0, 10000)), "threshold": draw(st.sampled_from([0.2, 0.2, 0.5])),
+            "pool_line_order": list(draw(st.permutations(range(sum(len(v) for v in pools.values())))))}
 
 
 def bam_of(spec, paths, sample):
@@ -186,10 +187,15 @@ def check_case(ctx, case):
                 pool_arg = ["--sample-pool", "POOL"]
             else:
                 pf = os.path.join(wd, "pools.txt")
+                lines = [(m, p) for p, members in pools.items() for m in members]
+                order = case.get("pool_line_order") or list(range(len(lines)))
+                lines = [lines[i] for i in order if i < len(lines)]
                 with open(pf, "w") as fh:
-                    for p, members in pools.items():
-                        for m in members:
-                            fh.write("%s\t%s\n" % (m, p))
+                    for m, p in lines:
+                        fh.write("%s\t%s\n" % (m, p))
+                pools = {}
+                for m, p in lines:  # column order = order of first appearance in the file
+                    pools.setdefault(p, []).append(m)
                 pool_arg = ["--sample-pool", pf]
             pool_ploidy = P.write_map(os.path.join(wd, "pool_ploidy.txt"), case["pool_ploidy"])
             merged_paths = []
